@@ -36,11 +36,11 @@ func runC05(c *eng.Ctx, thorough bool) {
 		}
 		// effective max selection
 		c.Clause("R5", "C05.1")
-		for _, e := range eng.PhiEdges(f, "maxTTL", func(v ssa.Value) bool { p, ok := v.(*ssa.Parameter); return ok && p.Name() == "backendMaxTTL" }) {
+		for _, e := range eng.PhiEdges(f, "maxTTL", func(v ssa.Value) bool { p, ok := v.(*ssa.Parameter); return ok && eng.VarName(p) == "backendMaxTTL" }) {
 			c.CutEdges(f, "maxTTL = backendMaxTTL", []eng.Edge{e}, eng.G(f, `^backendMaxTTL < `, true))
 			c.CutEdges(f, "maxTTL = backendMaxTTL", []eng.Edge{e}, eng.G(f, `^0 < backendMaxTTL$`, true))
 		}
-		for _, e := range eng.PhiEdges(f, "maxTTL", func(v ssa.Value) bool { p, ok := v.(*ssa.Parameter); return ok && p.Name() == "explicitMaxTTL" }) {
+		for _, e := range eng.PhiEdges(f, "maxTTL", func(v ssa.Value) bool { p, ok := v.(*ssa.Parameter); return ok && eng.VarName(p) == "explicitMaxTTL" }) {
 			c.CutEdges(f, "maxTTL = explicitMaxTTL", []eng.Edge{e}, eng.G(f, `^explicitMaxTTL < `, true))
 			c.CutEdges(f, "maxTTL = explicitMaxTTL", []eng.Edge{e}, eng.G(f, `^0 < explicitMaxTTL$`, true))
 		}
@@ -81,10 +81,10 @@ func runC05(c *eng.Ctx, thorough bool) {
 				for _, l := range leaves {
 					switch x := l.(type) {
 					case *ssa.Parameter:
-						if x.Name() == "startTime" {
+						if eng.VarName(x) == "startTime" {
 							hasParam = true
 						} else {
-							bad = "parameter " + x.Name()
+							bad = "parameter " + eng.VarName(x)
 						}
 					case *ssa.Call:
 						if eng.CalleeName(&x.Call) != "time.Now" {
